@@ -80,14 +80,22 @@ Definition recs (w : wst) (q : N) : list N :=
 
 (* the observed keys behave like (u/M)^(1/w) with Go's corner conventions:
    zero exactly when dk_pos says so, rank 0 <-> zero, and the float order is the
-   exact rational order wherever the latter is cheap to evaluate (weights <= 8
-   or equal weights) *)
+   exact rational order wherever the latter is cheap to evaluate *)
 Definition dk (c : cand) : dkey := (cu c, cw c).
 Definition corner_ok (c : cand) : bool :=
   Bool.eqb (czero c) (negb (dk_pos (dk c))) && Bool.eqb (crank c =? 0) (czero c).
+(* weights <= 8: float64 resolves every pair of distinct exact keys, the orders
+   must coincide.  Equal larger weights: keys crowd near 1 (for weight 2^32-1
+   draws closer than about 5e-7 relative give the same float64), so only
+   "no inversion" is required: float < implies exact <. *)
+Definition order_pair_ok (a b : cand) : bool :=
+  let (u1, w1) := dk_norm (dk a) in
+  let (u2, w2) := dk_norm (dk b) in
+  if (w1 <=? 8) && (w2 <=? 8) then Bool.eqb (crank a <? crank b) (dk_lt (dk a) (dk b))
+  else if w1 =? w2 then implb (crank a <? crank b) (dk_lt (dk a) (dk b))
+  else true.
 Definition order_ok (cs : list cand) : bool :=
-  forallb (fun a => forallb (fun b =>
-    if dk_comparable 8 (dk a) (dk b) then Bool.eqb (crank a <? crank b) (dk_lt (dk a) (dk b)) else true) cs) cs.
+  forallb (fun a => forallb (order_pair_ok a) cs) cs.
 
 Definition is_addr_c (c : cand) : bool := (cq c =? TypeA) || (cq c =? TypeAAAA).
 
